@@ -91,16 +91,20 @@ func ttSearch(kind string, rec *posRec) (search.AlphaBeta, refsearch.Config) {
 		return search.AlphaBeta{Explore: recExplore(rec), Eval: recQuiet{leaf, rec}}, refsearch.Config{Leaf: refsearch.Static, Eval: leaf}
 	case "quiescence":
 		return search.AlphaBeta{Explore: recExplore(rec), Eval: recQuiet{search.Quiescence{Explore: capturesOnly, Eval: leaf}, rec}},
-			refsearch.Config{Leaf: refsearch.Quiesce, QExplore: capturesOnly, Eval: leaf}
+			refsearch.Config{Leaf: refsearch.Quiesce, QExplore: capturesOnly, QPredPure: true, Eval: leaf, QMemo: &quietMemo}
 	}
 	panic(kind)
 }
+
+// quietMemo: captures-only quiescence values over material are a function of the position.
+var quietMemo sync.Map
 
 // valueMemo caches reference values of (position, depth, kind) computed on fresh games.
 type valueMemo struct {
 	mu     sync.Mutex
 	m      map[string]ref.Score
 	budget int64
+	impl   bool // values come from the implementation's own table-free search
 }
 
 func newValueMemo(budget int64) *valueMemo {
@@ -115,8 +119,29 @@ func (vm *valueMemo) value(ctx context.Context, kind, fen string, depth int) (re
 	if ok {
 		return v, true
 	}
-	_, rcfg := ttSearch(kind, &posRec{byHash: map[board.ZobristHash]string{}})
+	s0, rcfg := ttSearch(kind, &posRec{byHash: map[board.ZobristHash]string{}})
 	b := bridge.NewBoard(fen, 0)
+	if vm.impl {
+		// capture-rich positions, where exhaustive minimax is out of reach: the "true search value"
+		// is what the search itself returns without a table (C03 ties that to minimax elsewhere)
+		var sc eval.Score
+		if depth == 0 {
+			_, sc = s0.Eval.QuietSearch(ctx, &search.Context{TT: search.NoTranspositionTable{}}, b)
+		} else {
+			var err error
+			if _, sc, _, err = s0.Search(ctx, &search.Context{TT: search.NoTranspositionTable{}}, b, depth); err != nil {
+				return ref.Score{}, false
+			}
+		}
+		rs, ok := bridge.RefScore(sc)
+		if !ok {
+			return ref.Score{}, false
+		}
+		vm.mu.Lock()
+		vm.m[key] = rs
+		vm.mu.Unlock()
+		return rs, true
+	}
 	g, _ := ref.GameFromFEN(fen)
 	v, err := refsearch.New(rcfg, b, g, vm.budget).Value(ctx, depth)
 	if err != nil {
@@ -133,10 +158,14 @@ type c11case struct {
 	Kind  string // static | quiescence
 	Size  uint64 // table size in bytes
 	Depth int
-	Seq   string // deepen | repeat | game
+	Seq   string   // deepen | repeat | game | gamedeepen | twoids
+	Line  []string `json:",omitempty"` // twoids: the game moves played between the two runs of iterative deepening
 }
 
 func (cs c11case) String() string {
+	if len(cs.Line) > 0 {
+		return fmt.Sprintf("%s size=%d %s d=%d %v then %v", cs.Kind, cs.Size, cs.Seq, cs.Depth, cs.Root, cs.Line)
+	}
 	return fmt.Sprintf("%s size=%d %s d=%d %v", cs.Kind, cs.Size, cs.Seq, cs.Depth, cs.Root)
 }
 
@@ -167,6 +196,12 @@ func runC11(ctx context.Context, cs c11case, vm *valueMemo) (res c11result) {
 			res.problems = append(res.problems, c11problem{cls, fmt.Sprintf(format, args...)})
 		}
 	}
+	type entryKey struct {
+		h     board.ZobristHash
+		depth int
+		score eval.Score
+	}
+	validated := map[entryKey]bool{}
 	// the sequence of (root, depth) pairs
 	type step struct {
 		root  searchRoot
@@ -183,6 +218,17 @@ func runC11(ctx context.Context, cs c11case, vm *valueMemo) (res c11result) {
 		steps = []step{{cs.Root, cs.Depth}, {cs.Root, cs.Depth}, {cs.Root, cs.Depth - 1}, {cs.Root, cs.Depth}}
 	case "game":
 		steps = []step{{cs.Root, cs.Depth}}
+	case "twoids": // iterative deepening, one move by each side (ANY pair), iterative deepening again
+		next := searchRoot{FEN: cs.Root.FEN, Moves: append(append([]string(nil), cs.Root.Moves...), cs.Line...), Tags: cs.Root.Tags}
+		for _, r := range []searchRoot{cs.Root, next} {
+			for d := 1; d <= cs.Depth; d++ {
+				steps = append(steps, step{r, d})
+			}
+		}
+	case "gamedeepen": // what an engine does: iterative deepening at every position of the game, one table
+		for d := 1; d <= cs.Depth; d++ {
+			steps = append(steps, step{cs.Root, d})
+		}
 	}
 	for i := 0; i < len(steps); i++ {
 		st := steps[i]
@@ -209,10 +255,9 @@ func runC11(ctx context.Context, cs c11case, vm *valueMemo) (res c11result) {
 			add("error", "search %d failed: %v", i+1, err)
 			return
 		}
-		want, ok := vm.value(ctx, cs.Kind, rootFEN, st.depth)
-		if !ok {
-			res.skipped++
-			continue
+		want, haveWant := vm.value(ctx, cs.Kind, rootFEN, st.depth)
+		if !haveWant {
+			res.skipped++ // the root's reference value is beyond the node budget: the other clauses still apply
 		}
 		// same root score as without a table
 		b0, _ := newSearchBoards(st.root, 0)
@@ -221,13 +266,17 @@ func runC11(ctx context.Context, cs c11case, vm *valueMemo) (res c11result) {
 		if score != score0 {
 			add("score", "search %d of the sequence (depth %d at %v): score %v with the table, %v without", i+1, st.depth, st.root, score, score0)
 		}
-		if rs, ok := bridge.RefScore(score); !ok || !rs.Eq(want) {
+		if rs, ok := bridge.RefScore(score); haveWant && (!ok || !rs.Eq(want)) {
 			add("score-ref", "search %d of the sequence (depth %d at %v): score %v with the table, exhaustive minimax gives %v", i+1, st.depth, st.root, score, bridge.ImplScore(want))
 		}
 		// the PV still begins with a best legal move
 		if len(legalMoves) > 0 && b.Result().Outcome != board.Draw {
 			if len(pv) == 0 {
 				add("pv-empty", "search %d of the sequence (depth %d at %v): no principal variation although the root has legal moves (score %v)", i+1, st.depth, st.root, score)
+			} else if _, legal := g.Cur().FindMove(bridge.Text(pv[0])); !legal {
+				add("pv-first", "search %d of the sequence (depth %d at %v): first PV move %s is not legal", i+1, st.depth, st.root, bridge.Text(pv[0]))
+			} else if !haveWant {
+				// no reference value to compare the first move with
 			} else if msg := pvFirstAttains(ctx, vm, cs.Kind, g, pv[0], st.depth, want); msg != "" {
 				add("pv-first", "search %d of the sequence (depth %d at %v): %s", i+1, st.depth, st.root, msg)
 			}
@@ -248,15 +297,48 @@ func runC11(ctx context.Context, cs c11case, vm *valueMemo) (res c11result) {
 				continue
 			}
 			res.exactChecked++
+			validated[entryKey{w.Hash, w.Depth, w.Score}] = true
 			if rs, ok := bridge.RefScore(w.Score); !ok || !rs.Eq(v) {
 				res.exactWrong++
 				add("exact-entry", "search %d of the sequence stored Exact depth=%d score=%v for %s whose value at that depth is %v", i+1, w.Depth, w.Score, f, bridge.ImplScore(v))
+			}
+		}
+		// ... and so is every exact entry the table now HOLDS for a position the searches visited
+		// (what a store was asked to keep and what the table serves afterwards need not be the same)
+		for h, f := range rec.byHash {
+			bound, depth, sc, _, ok := tt.inner.Read(h)
+			if !ok || bound != search.ExactBound || validated[entryKey{h, depth, sc}] {
+				continue
+			}
+			validated[entryKey{h, depth, sc}] = true
+			v, ok := vm.value(ctx, cs.Kind, f, depth)
+			if !ok {
+				res.skipped++
+				continue
+			}
+			res.exactChecked++
+			if rs, ok := bridge.RefScore(sc); !ok || !rs.Eq(v) {
+				res.exactWrong++
+				add("exact-entry-held", "after search %d of the sequence the table serves Exact depth=%d score=%v for %s whose value at that depth is %v (no store of that search asked for this entry)", i+1, depth, sc, f, bridge.ImplScore(v))
 			}
 		}
 		if cs.Seq == "game" && len(pv) > 0 && len(st.root.Moves)-len(cs.Root.Moves) < 3 {
 			next := searchRoot{FEN: st.root.FEN, Moves: append(append([]string(nil), st.root.Moves...), bridge.Text(pv[0])), Tags: st.root.Tags}
 			if _, g2 := newSearchBoards(next, 0); len(g2.Cur().Legal()) > 0 && !g2.DrawNow() {
 				steps = append(steps, step{next, cs.Depth})
+			}
+		}
+		if cs.Seq == "gamedeepen" && st.depth == cs.Depth && len(pv) > 0 && len(st.root.Moves)-len(cs.Root.Moves) < 4 {
+			// the game goes on with the engine's move and every kind of reply: the best one (PV) ...
+			line := []string{bridge.Text(pv[0])}
+			if len(pv) > 1 {
+				line = append(line, bridge.Text(pv[1]))
+			}
+			next := searchRoot{FEN: st.root.FEN, Moves: append(append([]string(nil), st.root.Moves...), line...), Tags: st.root.Tags}
+			if _, g2 := newSearchBoards(next, 0); len(g2.Cur().Legal()) > 0 && !g2.DrawNow() {
+				for d := 1; d <= cs.Depth; d++ {
+					steps = append(steps, step{next, d})
+				}
 			}
 		}
 	}
@@ -279,32 +361,68 @@ var ttRoots = []searchRoot{
 	{"r1b1k3/ppp5/8/4N3/8/8/PPP5/2K5 w - - 0 1", []string{"e5f7"}, "tactical"},
 	{"2k5/8/8/8/8/8/4r3/R3K3 w Q - 0 20", []string{"e1e2"}, "tactical net"},
 	{"7k/8/5K2/6Q1/8/8/8/8 b - - 0 1", nil, "net"},
+	// capture-rich middlegames, shallow: most entries are quiescence leaves (depth 0) whose
+	// searches fail low and high all the time
+	{"r3k2r/p1ppqpb1/bn2pnp1/3PN3/1p2P3/2N2Q1p/PPPBBPPP/R3K2R w KQkq - 0 1", nil, "rich"},
+	{"1nk3rR/2p3b1/b3ppP1/5q2/p1B1P1n1/2Bp4/P7/RN2KR2 w - - 4 36", nil, "rich"},
+	{"r5nr/R2nk1pp/5p2/1ppppb1q/1P3P2/K2PP1PB/2PbQ2P/1N4NR b - - 3 16", nil, "rich"},
+	{"r1bq1rk1/pp2bppp/2n1pn2/2pp4/3P1B2/2PBPN2/PP1N1PPP/R2QK2R w KQ - 0 8", nil, "rich"},
+	{"2r3k1/pp3ppp/2n1b3/3pP3/3P1B2/P4N2/1q3PPP/R2Q2K1 w - - 0 18", nil, "rich"},
 }
 
 func checkC11(c *harness.Check) {
 	mustAnchors(c)
 	sizes := []uint64{32, 64, 512, 32768, 1 << 20}
-	c.Rule = fmt.Sprintf("roots with position-determined evaluation and exploration (static material leaf; captures-only quiescence over material) whose trees cannot contain a repetition or fifty-move draw x depth <= D x table sizes %v bytes x sequences of searches sharing ONE table (iterative deepening 1..d then d again; the same root at d,d,d-1,d; successive positions of a game along the PV). Oracle per search: score == score without table == reference minimax; PV non-empty and its first move attains the reference value; EVERY ExactBound store (hash mapped back to its position through the Exploration/QuietSearch seams) equals the reference value of that position at that depth. plus a single-bit key probe: an entry stored under h is never returned for h with any one of its 64 bits flipped (all table sizes). distinct_nontrivial = distinct (position, depth) pairs of validated exact entries", sizes)
+	c.Rule = fmt.Sprintf("roots with position-determined evaluation and exploration (static material leaf; captures-only quiescence over material) whose trees cannot contain a repetition or fifty-move draw x depth <= D x table sizes %v bytes x sequences of searches sharing ONE table (iterative deepening 1..d then d again; the same root at d,d,d-1,d; successive positions of a game along the PV; iterative deepening 1..d at every second position of a game along the PV, as an engine playing a game does; for the low-branching roots: iterative deepening, then EVERY move and EVERY reply, then iterative deepening again). Oracle per search: score == score without table == reference minimax; PV non-empty and its first move attains the reference value; EVERY ExactBound store (hash mapped back to its position through the Exploration/QuietSearch seams) equals the reference value of that position at that depth, and so does every exact entry the table HOLDS after the search for any position visited (table swept by Read). Capture-rich middlegame roots (shallow, most entries quiescence leaves), where exhaustive minimax is out of reach: there the value of (position, depth) is what the search itself returns for it on a fresh board without a table. plus a single-bit key probe: an entry stored under h is never returned for h with any one of its 64 bits flipped (all table sizes). distinct_nontrivial = distinct (position, depth) pairs of validated exact entries", sizes)
 	var cases []c11case
 	for _, r := range ttRoots {
 		max := c.Pick(3, 4)
 		if strings.Contains(r.Tags, "net") {
 			max = c.Pick(4, 5)
 		}
+		if strings.Contains(r.Tags, "rich") {
+			max = c.Pick(3, 4)
+		}
 		for _, kind := range []string{"static", "quiescence"} {
 			for _, size := range sizes {
-				for _, seq := range []string{"deepen", "repeat", "game"} {
+				for _, seq := range []string{"deepen", "repeat", "game", "gamedeepen"} {
 					for d := 2; d <= max; d++ {
-						if seq == "deepen" && d != max {
+						if (seq == "deepen" || seq == "gamedeepen") && d != max {
 							continue
 						}
-						cases = append(cases, c11case{r, kind, size, d, seq})
+						cases = append(cases, c11case{Root: r, Kind: kind, Size: size, Depth: d, Seq: seq})
 					}
 				}
 			}
 		}
 	}
+	// one full move of a game between two runs of iterative deepening, for EVERY move and EVERY
+	// reply (positions come back over longer paths at smaller depths: replacement at work)
+	pairs := 0
+	for _, r := range ttRoots {
+		if !strings.Contains(r.Tags, "net") {
+			continue
+		}
+		_, g := newSearchBoards(r, 0)
+		for _, m1 := range g.Cur().Legal() {
+			p1 := g.Cur().Make(m1)
+			for _, m2 := range p1.Legal() {
+				if p2 := p1.Make(m2); len(p2.Legal()) == 0 || ref.Insufficient(p2) {
+					continue
+				}
+				pairs++
+				for _, kind := range []string{"static", "quiescence"} {
+					for _, size := range []uint64{512, 1 << 20} {
+						cases = append(cases, c11case{Root: r, Kind: kind, Size: size, Depth: c.Pick(4, 5), Seq: "twoids", Line: []string{m1.String(), m2.String()}})
+					}
+				}
+			}
+		}
+	}
+	c.SetExtra("move_reply_pairs_between_two_deepenings", pairs)
 	vm := newValueMemo(int64(c.Pick(3_000_000, 30_000_000)))
+	vmRich := newValueMemo(0)
+	vmRich.impl = true
 	var cc classCap
 	ctx := context.Background()
 	harness.Parallel(len(cases), func(i int) {
@@ -312,7 +430,11 @@ func checkC11(c *harness.Check) {
 			return
 		}
 		cs := cases[i]
-		res := runC11(ctx, cs, vm)
+		m := vm
+		if strings.Contains(cs.Root.Tags, "rich") {
+			m = vmRich
+		}
+		res := runC11(ctx, cs, m)
 		c.Traces.Add(int64(res.searches))
 		c.Evaluations.Add(int64(res.exactChecked + res.searches))
 		c.Transitions.Add(int64(res.exactChecked))
@@ -328,12 +450,14 @@ func checkC11(c *harness.Check) {
 			c.Violation(cc.sig("C11/"+p.cls, cs.String()), p.msg+"\n    case: "+cs.String(), "C11/case", cs)
 		}
 	})
-	vm.mu.Lock()
-	c.States.Store(int64(len(vm.m)))
-	for k := range vm.m {
-		c.Distinct(k)
+	for _, m := range []*valueMemo{vm, vmRich} {
+		m.mu.Lock()
+		c.States.Add(int64(len(m.m)))
+		for k := range m.m {
+			c.Distinct(k)
+		}
+		m.mu.Unlock()
 	}
-	vm.mu.Unlock()
 	// the table must tell apart hashes that differ in ANY single bit (a truncated stored key would
 	// serve one position's entry for another): store under h, look up h with one bit flipped
 	for _, size := range append([]uint64{1 << 26}, sizes...) {
